@@ -20,6 +20,9 @@ __TAPKEE_IMPLEMENTATION(LandmarkIsomap)
     void validate()
     {
         parameters[landmark_ratio].checked().satisfies(InClosedRange<ScalarType>(3.0 / n_vectors, 1.0)).orThrow();
+        // the embedding is spanned by eigenvectors of a matrix with one row per landmark
+        const IndexType n_landmarks = static_cast<IndexType>(n_vectors * static_cast<ScalarType>(parameters[landmark_ratio]));
+        parameters[target_dimension].checked().satisfies(InClosedRange<IndexType>(1, n_landmarks)).orThrow();
     }
 
     TapkeeOutput embed()
